@@ -314,7 +314,7 @@ func drawUIDLen(rt *rapid.T, allowRefused bool) int {
 }
 
 func TestC06_Complete(t *testing.T) {
-	h.Prop(t, h.P{Name: "complete", Quick: 3000, Thorough: 40000}, func(rt *rapid.T) complCase {
+	h.Prop(t, h.P{Name: "complete", Quick: 3000, Thorough: 30000}, func(rt *rapid.T) complCase {
 		c := complCase{}
 		var d []byte
 		c.KeyKind, d = drawKey(rt)
